@@ -150,8 +150,28 @@ func (l *LIA) bv1(t *Term) *liaInfo {
 			return bad
 		}
 		return l.bv(t.Args[0]) // congruent modulo the smaller power of two as well
+	case OpConcat:
+		hi, lo := t.Args[0], t.Args[1]
+		a, b := l.uinfo(hi), l.uinfo(lo)
+		if !a.ok || !b.ok {
+			return bad
+		}
+		sc := pow2(lo.W)
+		return &liaInfo{lo: new(big.Int).Add(new(big.Int).Mul(a.lo, sc), b.lo), hi: new(big.Int).Add(new(big.Int).Mul(a.hi, sc), b.hi), ok: true}
 	}
 	return bad
+}
+
+// uinfo: bounds of the unsigned value of t when the integer view of t is that value
+func (l *LIA) uinfo(t *Term) *liaInfo {
+	if t.IsConst() {
+		v := new(big.Int).SetUint64(t.Val)
+		return &liaInfo{lo: v, hi: v, ok: true}
+	}
+	if !l.unsignedOK(t) {
+		return &liaInfo{}
+	}
+	return l.bv(t)
 }
 
 func (l *LIA) signedOK(t *Term) bool {
